@@ -10,6 +10,10 @@ use serde_json::{json, Value};
 use crate::util::Fnv;
 
 pub const VERIF_DIR: &str = "/verif";
+/// where evidence/ and replays/ are written (self-test runs redirect them with MC_OUT_DIR)
+pub fn out_dir() -> PathBuf {
+    PathBuf::from(std::env::var("MC_OUT_DIR").unwrap_or_else(|_| VERIF_DIR.to_string()))
+}
 
 #[derive(Clone, Copy, Debug, PartialEq, Eq)]
 pub enum Tier {
@@ -200,7 +204,7 @@ pub fn load_known() -> KnownFile {
 // final reporting
 
 pub fn write_replay(v: &Violation) -> PathBuf {
-    let dir = Path::new(VERIF_DIR).join("replays");
+    let dir = out_dir().join("replays");
     let _ = std::fs::create_dir_all(&dir);
     let body = serde_json::to_string_pretty(&json!({
         "property": v.prop, "signature": v.sig, "message": v.msg, "case": v.case
@@ -315,7 +319,7 @@ pub fn finish(ctx: &Ctx, level: &str, rule: &str, assumptions: &[&str], parts: V
         "wall_s": wall,
         "violations": unknown.len(),
     });
-    let dir = Path::new(VERIF_DIR).join("evidence");
+    let dir = out_dir().join("evidence");
     let _ = std::fs::create_dir_all(&dir);
     std::fs::write(dir.join(format!("{}.json", ctx.prop)), serde_json::to_string_pretty(&ev).unwrap())
         .expect("write evidence");
